@@ -469,7 +469,7 @@ theorem lower_threads_safe {c : Cfg} (ok : GeomOk16 c.geom) (m : Mem) (inv : Low
     have := I.step okg hhf k hk
     cases hs : (ths' k).step m' with
     | done a => rw [hs] at this; exact this
-    | dead s => rw [hs] at this; exact this rfl
+    | dead s => rw [hs] at this; rcases this with h | ⟨h, _⟩; exact h; cases h
     | step t' m'' a => trivial
   · intro hdone h hm
     have hc := I.count h hm
@@ -553,7 +553,7 @@ theorem lower_crash_anywhere_recovers {c : Cfg} (ok : GeomOk16 c.geom) (m : Mem)
       have := I.step okg hhf k hk
       cases hs : (ths' k).step m' with
       | done a => rw [hs] at this; exact this
-      | dead s => rw [hs] at this; exact this rfl
+      | dead s => rw [hs] at this; rcases this with h | ⟨h, _⟩; exact h; cases h
       | step t' m'' a => trivial
     · intro hdone h hm
       have hc := I.count h hm
